@@ -106,6 +106,16 @@ CHECKS = {
                 "each sodium_mprotect_* applies its own PROT_* constant to (unprotected_ptr, stored size). That the OS faults on the guard "
                 "page is not decided.",
     },
+    "C19": {
+        "engine": "PathAI (E1 typestate) + whole-library global-effect analysis (E2)",
+        "technique": "lock typestate analysis of the initialiser + ownership analysis of every store to process-global state",
+        "text": "Static, for every schedule: sodium_init holds the lock around every initialisation step and the initialized flag (set last), "
+                "releases it on every exit, and the already-initialised path does no work and returns 1; `locked` is only written with the "
+                "mutex held; the inventory of all mutable globals is enumerated from the IR and no public API function other than the "
+                "initialiser and four named lifecycle APIs stores to any of them, except through two lazy-init gates whose writes are "
+                "dominated by a 'not initialised' flag that sodium_init sets. Races inside libc/OS and sequential-equivalence of results "
+                "are not separately proved.",
+    },
     "C20": {
         "engine": "PathAI (E1) + call-graph effects (E2)",
         "technique": "path-sensitive typestate analysis of allocations (tested-before-use, error propagation, release-once, no leak) over every fault position",
